@@ -211,7 +211,11 @@ func New(c Conf) *W {
 		withHook, _ = v.(bool)
 		delete(c, "_hook")
 	}
-	if on, _ := c["hls.enable"].(bool); on {
+	on, _ := c["hls.enable"].(bool)
+	if on2, _ := c["hls.enable_https"].(bool); on2 {
+		on = true
+	}
+	if on {
 		routerOnce.Do(func() { hls.VerifSetFsl(fsRouter) })
 		root := fmt.Sprintf("/vfs/w%d/hls/", w.ID)
 		if _, ok := c["hls.out_path"]; !ok {
